@@ -91,6 +91,9 @@ func engineNLP(args []string) int {
 		if i%3 == 2 {
 			corpus = "shipped"
 		}
+		if i%9 == 4 { // every command contains the leading words of the query
+			corpus = []string{"tie", "bigtie", "single"}[(i/9)%3]
+		}
 		c := getCorpus(corpus)
 		// corpus words
 		var cw []string
@@ -120,6 +123,13 @@ func engineNLP(args []string) int {
 				qs = append(qs, qs[r.Intn(len(qs))]) // a word twice
 			default:
 				qs = append(qs, unknown[r.Intn(len(unknown))])
+			}
+		}
+		if corpus == "tie" || corpus == "bigtie" || corpus == "single" {
+			lead := [][]string{{"frobnicate", "widget"}, {"widget"}, {"the", "frobnicate"}, {"zqtie", "frobnicate", "widget"}}[r.Intn(4)]
+			qs = append(append([]string{}, lead...), qs...)
+			for len(qs) < 12+r.Intn(3) && r.Intn(3) > 0 { // long enough for the term cap to bite
+				qs = append(qs, english[r.Intn(len(english))])
 			}
 		}
 		q := strings.Join(qs, " ")
